@@ -1,12 +1,93 @@
+/-
+  Driver/Main.lean — line protocol between the Python harness and the Lean model.
+  One JSON object per input line, one JSON object per output line.
+  Imports Model + Spec only (core Lean), so it links as a native executable.
+-/
 import Lean.Data.Json
-open Lean
+import TrashVerif.Model.Date
+import TrashVerif.Model.PathStr
+import TrashVerif.Spec.C03
+open Lean TrashVerif
+
+def hexOf (j : Json) (k : String) : Except String Bytes := do
+  let s ← j.getObjValAs? String k
+  match Bytes.ofHex? s.toList with
+  | some b => pure b
+  | none => throw s!"bad hex in field {k}"
+
+def natOf (j : Json) (k : String) : Except String Nat := j.getObjValAs? Nat k
+
+def jhex (b : Bytes) : Json := Json.str (Bytes.toHex b)
+def jopt (o : Option Bytes) : Json := match o with | some b => jhex b | none => Json.null
+
+def dateJson (t : Date) : Json :=
+  Json.arr #[t.y, t.m, t.d, t.H, t.M, t.S]
+
+def dateOf (j : Json) (k : String) : Except String Date := do
+  let a ← j.getObjValAs? (Array Nat) k
+  if a.size ≠ 6 then throw "date needs 6 numbers"
+  pure { y := a[0]!, m := a[1]!, d := a[2]!, H := a[3]!, M := a[4]!, S := a[5]! }
+
+def handle (j : Json) : Except String Json := do
+  let op ← j.getObjValAs? String "op"
+  match op with
+  | "ping" => pure (Json.mkObj [("r", "pong")])
+  | "quote" => do
+    let s ← hexOf j "s"
+    pure (Json.mkObj [("r", jopt (quote? s))])
+  | "unquote" => do
+    let s ← hexOf j "s"
+    pure (Json.mkObj [("r", jhex (unquote s)), ("lossy", unquoteLossy s)])
+  | "readText" => do
+    let s ← hexOf j "s"
+    pure (Json.mkObj [("r", jopt (readText s))])
+  | "parsePath" => do
+    let s ← hexOf j "s"
+    match readText s with
+    | none => pure (Json.mkObj [("r", "decode-error")])
+    | some t =>
+      match parsePathRaw t with
+      | none => pure (Json.mkObj [("r", "parse-error")])
+      | some raw => pure (Json.mkObj [("r", "ok"), ("path", jhex (unquote raw)), ("lossy", unquoteLossy raw)])
+  | "parseDate" => do
+    let s ← hexOf j "s"
+    match readText s with
+    | none => pure (Json.mkObj [("r", "decode-error")])
+    | some t =>
+      match parseDate t with
+      | .missing => pure (Json.mkObj [("r", "missing")])
+      | .invalid => pure (Json.mkObj [("r", "invalid")])
+      | .date d => pure (Json.mkObj [("r", "date"), ("date", dateJson d), ("str", jhex d.str)])
+  | "format" => do
+    let loc ← hexOf j "loc"
+    let d ← dateOf j "date"
+    if validUtf8 loc then pure (Json.mkObj [("r", jhex (formatTrashinfoWith loc d.fmt))])
+    else pure (Json.mkObj [("r", Json.null)])
+  | "olderThan" => do
+    let days ← natOf j "days"
+    let now ← dateOf j "now"
+    let us ← natOf j "us"
+    let d ← dateOf j "date"
+    let r := match olderThan days now us d with
+      | .overflow => "overflow" | .yes => "yes" | .no => "no"
+    pure (Json.mkObj [("r", r)])
+  | "c03holds" => do
+    pure (Json.mkObj [("r", C03.Holds (← hexOf j "content") (← hexOf j "loc"))])
+  | "normpath" => do pure (Json.mkObj [("r", jhex (normpath (← hexOf j "s")))])
+  | "dirname" => do pure (Json.mkObj [("r", jhex (dirname (← hexOf j "s")))])
+  | "basename" => do pure (Json.mkObj [("r", jhex (basename (← hexOf j "s")))])
+  | "join" => do pure (Json.mkObj [("r", jhex (pjoin (← hexOf j "a") (← hexOf j "b")))])
+  | _ => throw s!"unknown op {op}"
 
 partial def loop (h : IO.FS.Stream) (out : IO.FS.Stream) : IO Unit := do
   let line ← h.getLine
   if line.isEmpty then return ()
-  match Json.parse line with
-  | .ok j => out.putStrLn (j.compress)
-  | .error e => out.putStrLn s!"err {e}"
+  let resp := match Json.parse line with
+    | .ok j => match handle j with
+      | .ok r => r
+      | .error e => Json.mkObj [("error", e)]
+    | .error e => Json.mkObj [("error", s!"json: {e}")]
+  out.putStrLn resp.compress
   out.flush
   loop h out
 
